@@ -33,6 +33,11 @@ CLAIMED = {
             "K symbolic front/back steps (stepping on after exhaustion) are compared with std, for the forward and reversed iterator "
             "types; the for_each!/eval! macro route is checked for ranges of up to 4 items. Bounded in the number of steps, not in the values.",
             "DESIGN.md#c09"),
+    "C16": (BMC + "std == / Ord::cmp on symbolic pairs (lexicographic reference for slices), should_panic twins for assertc_eq!/assertc_ne!",
+            "Scalars, NonZero*, Ordering, ranges and Option of them are compared with std over their whole domains (exhaustive per pair); "
+            "strings, slices of every primitive, slices of strings/byte slices over all contents up to the stated lengths (all length "
+            "combinations); order axioms on triples. Not decidable here: the ordering of bool (Kani 0.68 mis-models `<` on bool) - only "
+            "bool equality is claimed. Open finding: exhausted RangeInclusive.", "DESIGN.md#c16"),
     "C04": (BMC + "a naive first/last-occurrence reference, all byte values, symbolic haystack and pattern",
             "For every haystack up to the stated byte length and every pattern (str, char, [u8], [u8;N]) up to the stated length, over "
             "the full byte alphabet, the SAT solver shows find/rfind/contains/find_skip/find_keep/rfind_skip/rfind_keep/split_once/"
